@@ -99,7 +99,14 @@ def _toks(n):
     if k in ("word", "read"):
         return [n[1]]
     if k == "cap":
-        return ["["] + idblock(n[1]) + toks(n[2], 0) + ["]"]
+        inner = toks(n[2], 0)
+        if not inner and not n[1]:
+            inner = ["(", ")"]      # `[ ]` would be the empty-list literal
+        return ["["] + idblock(n[1]) + inner + ["]"]
+    if k == "bcap":      # back-tick capture: ``[ body ]  drops n[1] slots below the sequence
+        if n[2] is None:
+            return ["`" * n[1] + "[", "]"]
+        return ["`" * n[1] + "["] + toks(n[2], 0) + ["]"]
     if k == "paren":
         return ["("] + idblock(n[1]) + toks(n[2], 0) + [")"]
     if k == "sub":
@@ -139,21 +146,124 @@ def stmt(n):
     return _toks(n)
 
 
+STYLE = None      # set by text() while unparsing with a Style
+
+
+class Style:
+    """Layout / spelling choices that the documentation declares irrelevant."""
+
+    def __init__(self, rng, ws=False, comments=False, strenc=False, split=False):
+        self.r, self.ws, self.comments, self.strenc, self.split = rng, ws, comments, strenc, split
+        self.used = set()
+
+    def sep(self):
+        r = self.r
+        if self.comments and r.random() < 0.3:
+            k = r.choice(["c", "h", "s"])
+            self.used.add("comment-" + k)
+            word = r.choice(["x", "a comment", "1 2 add", "let", "if then", "%s", ""])
+            if k == "c":
+                return r.choice([" ", "\n", "\t"]) + "/* " + word + " */" + r.choice([" ", "\n", " \n "])
+            if k == "h":
+                return " # " + word + "\n"
+            return " // " + word + "\n"
+        if self.ws and r.random() < 0.5:
+            self.used.add("whitespace")
+            return r.choice(["  ", "\t", "\n", " \n ", "\n\n", " \t ", "   "])
+        return " "
+
+    def enc_byte(self, c):
+        r = self.r
+        ch = chr(c)
+        alts = []
+        if ch == '"':
+            alts = ['\\"']
+        elif ch == "\\":
+            alts = ["\\\\"]
+        elif ch == "%":
+            alts = ["%%"]
+        elif ch == "\n":
+            alts = ["\\n", "\n"]
+        elif ch == "\t":
+            alts = ["\\t", "\t"]
+        elif 0x20 <= c < 0x7f:
+            alts = [ch]
+        elif c >= 0x80:
+            alts = [ch]
+        else:
+            named = {7: "\\a", 8: "\\b", 27: "\\e", 11: "\\v", 12: "\\f", 13: "\\r"}
+            alts = [named[c]] if c in named else []
+        if not self.strenc:
+            return alts[0] if alts else "\\x%02x" % c
+        alts = alts + ["\\x%02x" % c, "\\x%02X" % c, "\\%03o" % c]
+        self.used.add("escape")
+        return r.choice(alts)
+
+    def enc(self, b):
+        out = []
+        for i, c in enumerate(b):
+            out.append(self.enc_byte(c))
+            if self.split and i + 1 < len(b) and self.r.random() < 0.25:
+                self.used.add("split")
+                out.append('"\\' + self.r.choice(["", " ", "\n", " \t "]) + '"')
+        return "".join(out)
+
+
+def join(tokens):
+    if STYLE is None:
+        return " ".join(tokens)
+    out = []
+    for i, t in enumerate(tokens):
+        if i:
+            out.append(STYLE.sep())
+        out.append(t)
+    return "".join(out)
+
+
 def str_text(parts):
     out = ['"']
     for p in parts:
         if isinstance(p, (bytes, bytearray)):
-            out.append(str_escape(bytes(p)))
+            out.append(str_escape(bytes(p)) if STYLE is None else STYLE.enc(bytes(p)))
         elif p[0] == "dir":
             out.append("%" + p[1])
         elif p[0] == "splice":
-            out.append("%( " + " ".join(toks(p[1], 0)) + " %)")
+            inner = toks(p[1], 0)
+            if STYLE is None:
+                out.append("%( " + " ".join(inner) + " %)")
+            else:
+                out.append("%(" + STYLE.sep() + join(inner) + (STYLE.sep() if inner else "") + "%)")
     out.append('"')
     return "".join(out)
 
 
-def text(n):
-    return " ".join(toks(n, 0))
+def text(n, style=None):
+    global STYLE
+    old = STYLE
+    STYLE = style
+    try:
+        return join(toks(n, 0))
+    finally:
+        STYLE = old
+
+
+def replace_at(n, path, f):
+    """Replace the node at PATH (list of child indices per children()) by f(node)."""
+    if not path:
+        return f(n)
+    ch = children(n)
+    c, rebuild = ch[path[0]]
+    return rebuild(replace_at(c, path[1:], f))
+
+
+def paths(n, pred, prefix=()):
+    """All paths to nodes satisfying PRED."""
+    out = []
+    if pred(n):
+        out.append(list(prefix))
+    for i, (c, _) in enumerate(children(n)):
+        out += paths(c, pred, prefix + (i,))
+    return out
 
 
 def walk(n):
@@ -169,6 +279,9 @@ def walk(n):
                 yield from walk(p[1])
     elif k in ("cap", "paren", "let", "block"):
         yield from walk(n[2])
+    elif k == "bcap":
+        if n[2] is not None:
+            yield from walk(n[2])
     elif k == "sub":
         yield from walk(n[3])
     elif k == "infix":
